@@ -39,6 +39,8 @@ def _gate_classes(repo):
 
 def run(ctx):
     repo = ctx.repo
+    _sibling_constructions(ctx, repo)
+    _exhaustive_match(ctx, repo)
     ctx.decided += [
         'C16.a gate kinds: writer fields within the schema, every schema kind has reader and writer, class written == class rebuilt, '
         'sub-fields written are read, attribute written flows back into the same-named constructor keyword',
@@ -1503,3 +1505,86 @@ def _positional_sequences(ctx, repo):
                f'`{ast.unparse(c)[:80]}` skips entries of {ast.unparse(g.iter)}: the reader assigns what is left by position, so (None, f) comes back as (f,) or (f, None)', ci.mod.rel, c.lineno)
     if n == 0:
         raise AnalysisError('C16.q: no comprehension over a gate attribute in _serialize_gate_op')
+
+
+# ---------------------------------------------------------------------------------------------------------------------
+SIBLING_CTOR_EXEMPT = {
+    ('cirq_google.serialization.circuit_serializer', 'v2.program_pb2.Constant'): 'a oneof message: each site sets the one alternative it holds',
+    ('cirq_google.devices.grid_device', 'cirq.GridDeviceMetadata'): '_from_device_information has no qubit attributes to hand on (they only exist in a DeviceSpecification)',
+}
+
+
+def _sibling_constructions(ctx, repo):
+    """C16.r - all sites of one module that construct the same message / value class by keyword agree on the keyword set."""
+    ctx.decided.append('C16.r conversion code that builds the same message or value class at several sites passes the same fields at each (a field copied by one writer / reader and forgotten by its sibling)')
+    ctx.rule('C16.r', 'sibling constructions agree: within one module of cirq_google.api / serialization / study / devices, when a class or proto message (capitalised callee) is constructed '
+             'with keyword arguments only in two or more different functions, every site passes every keyword some sibling passes (oneof messages and tabled exceptions aside) - '
+             'path and idx copied, units forgotten', floor=3, style='COH')
+    n = 0
+    for m in sorted(repo.modules.values(), key=lambda x: x.rel):
+        if not m.rel.startswith(('cirq-google/cirq_google/api/', 'cirq-google/cirq_google/serialization/', 'cirq-google/cirq_google/study/', 'cirq-google/cirq_google/devices/')) \
+                or m.rel.endswith('_test.py') or '_pb2' in m.rel:
+            continue
+        par = m.parents()
+        groups = {}
+        for c in ast.walk(m.tree):
+            if not isinstance(c, ast.Call):
+                continue
+            d = dotted(c.func)
+            if not d or not d.split('.')[-1][:1].isupper() or c.args or not c.keywords or any(k.arg is None for k in c.keywords):
+                continue
+            fn = c
+            while fn in par and not isinstance(fn, (ast.FunctionDef, ast.AsyncFunctionDef)):
+                fn = par[fn]
+            groups.setdefault(d, []).append((getattr(fn, 'name', '<module>'), c, frozenset(k.arg for k in c.keywords)))
+        for d, sites in sorted(groups.items()):
+            if len({s[0] for s in sites}) < 2:
+                continue
+            allk = set().union(*[s[2] for s in sites])
+            ex = SIBLING_CTOR_EXEMPT.get((m.name, d))
+            for fname, c, kws in sites:
+                miss = sorted(allk - kws)
+                n += 1
+                ok = not miss or ex is not None
+                ctx.ob('C16.r', f'{m.name}.{fname}:{d}({",".join(sorted(kws))})', ok, ('tabled: ' + ex) if (ex and miss) else '' if ok else
+                       f'`{d}(...)` is built here without {miss}, which a sibling site of the same module passes: the field is lost on this path', m.rel, c.lineno)
+    if n == 0:
+        raise AnalysisError('C16.r: no sibling constructions found')
+
+
+def _exhaustive_match(ctx, repo):
+    """C16.s - a `match` in conversion code that is not exhaustive must not fall through silently."""
+    ctx.decided.append('C16.s every match statement of the conversion code has a default arm (or is directly followed by a raise / return): an unlisted alternative is refused, not skipped')
+    ctx.rule('C16.s', 'exhaustive dispatch: every `match` statement in a writer (…to_proto / serialize…) of cirq_google.api / serialization has a wildcard `case _` arm, or the statement after it in the same block raises or '
+             'returns - a value of an unlisted kind (dtype, oneof alternative) is otherwise converted to nothing without an error', floor=3, style='RG')
+    from ..flow import block_of
+    n = 0
+    for m in sorted(repo.modules.values(), key=lambda x: x.rel):
+        if not m.rel.startswith(('cirq-google/cirq_google/api/', 'cirq-google/cirq_google/serialization/')) or m.rel.endswith('_test.py') or '_pb2' in m.rel:
+            continue
+        par = m.parents()
+        for fn in [f for f in ast.walk(m.tree) if isinstance(f, (ast.FunctionDef, ast.AsyncFunctionDef))]:
+            k = 0
+            writer = ('to_proto' in fn.name or ('serialize' in fn.name and 'deserialize' not in fn.name))
+            for st in ast.walk(fn):
+                if not isinstance(st, ast.Match):
+                    continue
+                k += 1
+                n += 1
+                if not writer:
+                    # readers: an unset / unknown alternative maps to the documented default (None) - counted, not constrained
+                    ctx.ob('C16.s', f'{m.name}.{fn.name}:match#{k}:{ast.unparse(st.subject)[:40]}', True, 'reader: default result documented', m.rel, st.lineno)
+                    continue
+                wild = any(isinstance(c.pattern, ast.MatchAs) and c.pattern.pattern is None and c.guard is None for c in st.cases)
+                nxt = None
+                pp = par.get(st)
+                for fld in ('body', 'orelse', 'finalbody'):
+                    blk = getattr(pp, fld, None)
+                    if isinstance(blk, list) and st in blk:
+                        i = blk.index(st)
+                        nxt = blk[i + 1] if i + 1 < len(blk) else None
+                ok = wild or isinstance(nxt, (ast.Raise, ast.Return))
+                ctx.ob('C16.s', f'{m.name}.{fn.name}:match#{k}:{ast.unparse(st.subject)[:40]}', ok, '' if ok else
+                       f'`match {ast.unparse(st.subject)[:40]}` has no default arm and nothing after it: an alternative that is not listed is silently skipped', m.rel, st.lineno)
+    if n == 0:
+        raise AnalysisError('C16.s: no match statements in the conversion code')
